@@ -124,7 +124,7 @@ def run_pair(rep, rng, ci, cfg):
     if cfg["terminals"] >= 2 and cfg["bias"]:
         names = [t.name for t in dev.terminals]
         cur = {names[0]: cfg["bias"], names[1]: -cfg["bias"]}
-    frames, iters = {}, {}
+    frames, iters, failed = {}, {}, {}
     with tempfile.TemporaryDirectory(prefix="pyt_c04_") as td:
         psi0 = np.ones(n, dtype=complex)
         if cfg["terminals"]:
@@ -135,7 +135,7 @@ def run_pair(rep, rng, ci, cfg):
         if cfg["terminals"]:
             psi0[ts] = 0.0
         seed1 = make_seed(dev, td, psi0)
-        scr = dict(include_screening=True, screening_tolerance=1e-3) if cfg.get("screening") else {}
+        scr = dict(include_screening=True, screening_tolerance=cfg.get("scr_tol", 1e-3)) if cfg.get("screening") else {}
         opts = runs.make_options(None, solve_time=cfg["solve_time"], dt_init=1e-3, dt_max=2e-2, adaptive=cfg["adaptive"],
                                  save_every=10, **scr)
         # dimensionless shift: link exponents are A_scale * A . (dimensionless direction)
@@ -155,7 +155,13 @@ def run_pair(rep, rng, ci, cfg):
         for tag, A, seed in (("a", fields[0], seed1), ("b", fields[1], seed2)):
             o = runs.make_options(td, solve_time=cfg["solve_time"], dt_init=1e-3, dt_max=2e-2, adaptive=cfg["adaptive"],
                                   save_every=10, output_file=f"{td}/run_{tag}.h5", **scr)
-            sol, solver_ = runs.traced_solve(dev, o, A=A, currents=cur, seed_solution=seed)
+            try:
+                sol, solver_ = runs.traced_solve(dev, o, A=A, currents=cur, seed_solution=seed)
+            except RuntimeError as e:
+                if "Screening calculation failed to converge" not in str(e):
+                    raise
+                failed[tag] = str(e)[:120]                    # an allowed outcome, provided both gauges agree on it
+                continue
             runs.report_threading(rep, solver_, {"pair": ci, "run": tag})
             iters[tag] = None if not scr else np.array(sol.dynamics.screening_iterations)
             with h5py.File(sol.path, "r") as f:
@@ -164,6 +170,16 @@ def run_pair(rep, rng, ci, cfg):
                     grp = f["data"][k]
                     fr.append({key: np.array(grp[key]) for key in ("psi", "mu", "supercurrent", "normal_current")})
                 frames[tag] = fr
+    if failed:
+        case = {"pair": ci, **{k: str(v) for k, v in cfg.items()}, "sites": n, "failed": failed}
+        if len(failed) == 1:
+            rep.violation("screening converges in one gauge and fails to converge in the uniformly shifted gauge", case)
+        else:
+            rep.coverage["screening_pairs_not_converged_in_both_gauges"] = rep.coverage.get("screening_pairs_not_converged_in_both_gauges", 0) + 1
+            if cfg.get("scr_tol", 1e-3) < 1e-2:
+                return run_pair(rep, rng, ci, {**cfg, "scr_tol": 1e-2})      # same physics, looser self-consistency
+        rep.count(1)
+        return
     case = {"pair": ci, **{k: str(v) for k, v in cfg.items()}, "sites": n, "frames": len(frames["a"])}
     if len(frames["a"]) != len(frames["b"]):
         rep.violation("runs related by a gauge shift recorded different numbers of frames", case)
